@@ -157,6 +157,9 @@ class C01(Prop):
                "cycles": 1 if tier == "quick" else rng.choice([1, 2, 3]),
                "n_files": rng.randint(1, 4), "max_lines": 40 if tier == "quick" else 120,
                "human_pre_ckpt": rng.random() < 0.3, "gates": self.gates()}
+        # clock-fault sub-mode (ties and backward steps of the checkpoint clock): drawn only while the
+        # finding clock_order is not listed, never mixed into the default mode
+        cfg["clock"] = "faulty" if ("clock_order" not in cfg["gates"] and rng.random() < 0.15) else "monotone"
         idg = gen.IdGen()
         files = gen.initial_files(rng, idg, cfg["n_files"], 12, hz)
         return {"world": {"mode": "wrapper"}, "sessions": ["s%d" % (k + 1) for k in range(n_sessions)],
@@ -203,6 +206,9 @@ class C01(Prop):
                     new, desc = gen.mutate(rng, ex, old, who, hz, kinds=["delete"], max_block=10)
                 op = {"op": "edit", "who": who, "files": {path: new}, "desc": desc,
                       "dt": log_uniform_ms(rng), "dt2": rng.randint(1, 5000)}
+                if cfg.get("clock") == "faulty" and rng.random() < 0.4:
+                    op["dt"] = rng.choice([0, 0, -1, -5000, -86400000])      # tie / NTP step back / VM resume
+                    ex.fault("clock.tie" if op["dt"] == 0 else "clock.jump_back")
                 if who == HUMAN and cfg.get("human_pre_ckpt") and rng.random() < 0.5:
                     op["pre_ckpt"] = True
                 return op
